@@ -188,8 +188,12 @@ func emit(e *enc, rng *rand.Rand, shuffle bool, fs []field) {
 	}
 }
 
-func encInfo(in *Info, st *strtab, dmg Damage, oob uint64) []byte {
+func encInfo(in *Info, st *strtab, dmg Damage, oob uint64, unk bool) []byte {
 	var e enc
+	if unk {
+		e.varint(40, 9)
+		e.str(41, "ext")
+	}
 	if in.Version != nil {
 		e.varint(1, uint64(int64(*in.Version)))
 	}
@@ -379,6 +383,9 @@ func (b *Block) encDense(d *Dense, st *strtab, rng *rand.Rand, shuffle bool, dmg
 				}
 				ifs = append(ifs, field{func(e *enc) { e.packedVar(6, vs) }})
 			}
+			if b.UnknownFields {
+				ifs = append(ifs, field{func(e *enc) { e.varint(33, 1) }})
+			}
 			emit(&in, rng, shuffle, ifs)
 			e.bytes(5, in.b)
 		}})
@@ -454,7 +461,7 @@ func (b *Block) encWay(w *Way, st *strtab, rng *rand.Rand, shuffle bool, dmg Dam
 		if hit && dmg.Kind == "oob-way-user" {
 			o = oob
 		}
-		fs = append(fs, field{func(e *enc) { e.bytes(4, encInfo(in, st, dmg, o)) }})
+		fs = append(fs, field{func(e *enc) { e.bytes(4, encInfo(in, st, dmg, o, b.UnknownFields)) }})
 	}
 	if w.HasRefs {
 		fs = append(fs, field{func(e *enc) { e.packedSint(8, delta(w.Refs)) }})
@@ -506,7 +513,7 @@ func (b *Block) encRelation(r *Relation, st *strtab, rng *rand.Rand, shuffle boo
 		if hit && dmg.Kind == "oob-rel-user" {
 			o = oob
 		}
-		fs = append(fs, field{func(e *enc) { e.bytes(4, encInfo(in, st, dmg, o)) }})
+		fs = append(fs, field{func(e *enc) { e.bytes(4, encInfo(in, st, dmg, o, b.UnknownFields)) }})
 	}
 	if r.HasMembers || (hit && (dmg.Kind == "oob-rel-role" || dmg.Kind == "rel-roles-long")) {
 		roles := make([]uint64, len(r.Members))
@@ -531,6 +538,9 @@ func (b *Block) encRelation(r *Relation, st *strtab, rng *rand.Rand, shuffle boo
 		fs = append(fs, field{func(e *enc) { e.packedVar(8, roles) }})
 		fs = append(fs, field{func(e *enc) { e.packedSint(9, dids) }})
 		fs = append(fs, field{func(e *enc) { e.packedVar(10, types) }})
+	}
+	if b.UnknownFields {
+		fs = append(fs, field{func(e *enc) { e.str(56, "y") }})
 	}
 	var e enc
 	emit(&e, rng, shuffle, fs)
@@ -592,7 +602,7 @@ func EncodeFileBlock(typ string, payload []byte, useZlib bool, level int, indexD
 	case dmg.Kind == "empty-blob":
 		// neither raw nor zlib_data
 		blob.varint(2, uint64(len(payload)))
-	case useZlib || dmg.Kind == "corrupt-zlib" || dmg.Kind == "bad-adler" || dmg.Kind == "rawsize-plus" || dmg.Kind == "rawsize-minus" || dmg.Kind == "zlib-truncated":
+	case useZlib || dmg.Kind == "bad-zlib-header" || dmg.Kind == "corrupt-zlib" || dmg.Kind == "bad-adler" || dmg.Kind == "rawsize-plus" || dmg.Kind == "rawsize-minus" || dmg.Kind == "zlib-truncated":
 		if level == 0 {
 			level = zlib.DefaultCompression
 		}
@@ -604,6 +614,8 @@ func EncodeFileBlock(typ string, payload []byte, useZlib bool, level int, indexD
 			for i := 2; i < len(z)-4 && i < 2+8; i++ {
 				z[i] ^= 0xFF
 			}
+		case "bad-zlib-header":
+			z[0], z[1] = 0x00, 0x00 // not a zlib stream at all
 		case "bad-adler":
 			z[len(z)-1] ^= 0x5A
 		case "zlib-truncated":
@@ -672,7 +684,11 @@ func (f *File) Encode(dmg map[int]Damage) ([]byte, *Layout) {
 			hc.Required = append(append([]string{}, h.Required...), "FutureFeature-V9")
 			h = &hc
 		}
-		fb, pe, he := EncodeFileBlock("OSMHeader", h.EncodeHeaderBlock(), h.Zlib, 0, false, d)
+		hp := h.EncodeHeaderBlock()
+		if d.Kind == "garbage-headerblock" {
+			hp = bytes.Repeat([]byte{0xFF}, 24) // a well-formed blob whose payload is not a HeaderBlock
+		}
+		fb, pe, he := EncodeFileBlock("OSMHeader", hp, h.Zlib, 0, false, d)
 		lay.HeaderPrefixEnd, lay.HeaderBlobHeaderEnd = int64(pe), int64(he)
 		out = append(out, fb...)
 		lay.HeaderEnd = int64(len(out))
@@ -682,6 +698,9 @@ func (f *File) Encode(dmg map[int]Damage) ([]byte, *Layout) {
 		payload := b.EncodePrimitiveBlock(d)
 		if d.Kind == "garbage-primitiveblock" {
 			payload = bytes.Repeat([]byte{0xFF}, 30)
+		}
+		if mut := f.PayloadMut[i]; mut != nil {
+			payload = mut(payload)
 		}
 		fb, pe, he := EncodeFileBlock("OSMData", payload, b.Zlib, b.ZlibLevel, b.IndexData, d)
 		start := int64(len(out))
